@@ -2,11 +2,11 @@ package sim
 
 import (
 	"bytes"
-	"os"
 	"fmt"
 	"io"
 	"net/http"
 	"net/url"
+	"os"
 	"runtime"
 	"sort"
 	"strconv"
@@ -183,6 +183,11 @@ type World struct {
 	OnBoot     func(w *World) // builds the metacontroller process inside the bubble
 
 	Violation *Violation
+	// KnownFindings are the open entries of known_findings.json: a violation that
+	// matches one is counted in KnownSeen and the oracle keeps looking, so that a
+	// listed finding never hides a different violation in the same run.
+	KnownFindings []KnownFinding
+	KnownSeen     map[string]int
 
 	mu       sync.Mutex
 	inc      int
@@ -202,6 +207,7 @@ type World struct {
 	Incs       int
 	idleHook   func(w *World)
 
+	Cache      CacheModel
 	Stages     []Stage
 	ss         stageState
 	lastSig    int
@@ -562,6 +568,9 @@ func (w *World) apply(r *ReqRec, p *parsedPath) (int, []byte, *WatchStream, *Sta
 	case "list":
 		rv := s.RV()
 		items := s.List(res, p.NS)
+		if p.NS == "" {
+			w.Cache.list(w.step, w.inc, res, items)
+		}
 		return 200, listBody(res, items, rv), nil, nil
 	case "watch":
 		from := s.RV()
@@ -806,6 +815,7 @@ func (w *World) Deliver(ws *WatchStream) bool {
 				panic("sim: watch buffer overflow")
 			}
 			ws.Delivered = ev.RV
+			w.Cache.event(w.step, w.inc, ev)
 			w.logf("deliver watch#%d %s %s/%s rv=%d", ws.ID, ev.Type, ev.NS, ev.Name, ev.RV)
 			return true
 		}
@@ -948,7 +958,7 @@ func (w *World) checkInvariants() {
 		return
 	}
 	for _, inv := range w.Invariants {
-		if v := inv(w); v != nil {
+		if v := inv(w); v != nil && !w.Known(v) {
 			if v.Step == 0 {
 				v.Step = w.step
 			}
@@ -1187,4 +1197,37 @@ func (w *World) ShortLog(n int) []string {
 		}
 	}
 	return out
+}
+
+// KnownFinding is one open entry of known_findings.json.
+type KnownFinding struct {
+	Property  string            `json:"property"`
+	State     string            `json:"state"`
+	Class     string            `json:"class"`
+	Signature map[string]string `json:"signature"`
+	What      string            `json:"what"`
+}
+
+// Known reports whether v matches an open known finding (and counts it).
+func (w *World) Known(v *Violation) bool {
+	for i := range w.KnownFindings {
+		f := &w.KnownFindings[i]
+		if f.State != "open" || f.Property != v.Prop || f.Class != v.Class {
+			continue
+		}
+		ok := true
+		for k, val := range f.Signature {
+			if v.Sig[k] != val {
+				ok = false
+			}
+		}
+		if ok {
+			if w.KnownSeen == nil {
+				w.KnownSeen = map[string]int{}
+			}
+			w.KnownSeen[fmt.Sprintf("property=%s %s", f.Property, f.What)]++
+			return true
+		}
+	}
+	return false
 }
